@@ -262,6 +262,8 @@ impl Cartesian<'_> {
         stop: &AtomicBool,
     ) -> Result<Vec<AnnotatedJoints>, String> {
         println!("Cartesian planning started, computing strategy {work_path_start:?}");
+        #[cfg(feature = "verif_hooks")]
+        crate::verif_hooks::emit("cartesian_strategy_start", work_path_start);
 
         let started = Instant::now();
         let mut trace = Vec::with_capacity(100 + poses.len() + 10);
@@ -304,6 +306,8 @@ impl Cartesian<'_> {
                     println!(
                         "Closing step {:?} with RRT", step
                     );
+                    #[cfg(feature = "verif_hooks")]
+                    crate::verif_hooks::emit("cartesian_rrt_close", &[step as f64, trace.len() as f64]);
                     let solutions = self.robot.inverse_continuing(&to.pose, &prev.joints);
                     for next in solutions {
                         let path = self.rrt.plan_rrt(&prev.joints, &next, self.robot, stop);
